@@ -56,7 +56,12 @@ func genCase(t *rapid.T) Case {
 	nk := rapid.IntRange(1, 3).Draw(t, "nkeys")
 	for i := 0; i < nk; i++ {
 		rep := []string{"req", "opt", "opt"}[rapid.IntRange(0, 2).Draw(t, "krep")]
-		root.Children = append(root.Children, ref.Node{Name: fmt.Sprintf("c%d", i+1), Rep: rep, Kind: "leaf", Leaf: gen.LeafID(t, keyLeaves, "kleaf")})
+		key := ref.Node{Name: fmt.Sprintf("c%d", i+1), Rep: rep, Kind: "leaf", Leaf: gen.LeafID(t, keyLeaves, "kleaf")}
+		if rapid.IntRange(0, 3).Draw(t, "knest") == 0 {
+			// an optional leaf inside an optional group: nulls at two depths (group absent, leaf absent)
+			key = ref.Node{Name: key.Name, Rep: "opt", Kind: "group", Children: []ref.Node{{Name: "k", Rep: "opt", Kind: "leaf", Leaf: key.Leaf}}}
+		}
+		root.Children = append(root.Children, key)
 	}
 	// a repeated payload column after, between or before the key candidates (rows with several
 	// values in it shift the position of the keys inside the row)
